@@ -14,7 +14,7 @@ import (
 func init() {
 	register(&Pack{ID: "C11", Run: runC11, Meta: core.Meta{
 		Level:       "other",
-		Explanation: "Unfold: on every path of the stage goroutine from the loop head the value offered on the output is the current seed, the send precedes the single application of the step function, the argument of that application is the value just sent, and on success its first result becomes the next seed (so the delivered sequence is seed, f(seed), f(f(seed)), ... without gap, repeat or reordering; the seed itself is delivered first because the entry path reaches the loop with the seed parameter unchanged). Emit: the index starts at constant 0 and is incremented by exactly 1 on every path back to the loop head (also after a Try-mode failure), the value sent is the first result of Apply(i) of the same iteration, and every path from one application to the next passes exactly once through time.Sleep(frequency) with the stage's own parameter (structural half of 'at most one call per tick'). Cancel/close: the C06 closing rules on both stages. The wall-clock statements (k-th value never before k ticks, one value per tick for a consumer that keeps up) follow on paper from the pacing shape; they are not measured.",
+		Explanation: "Unfold: on every path of the stage goroutine from the loop head the value offered on the output is the current seed, the send precedes the single application of the step function, the argument of that application is the value just sent, and on success its first result becomes the next seed (so the delivered sequence is seed, f(seed), f(f(seed)), ... without gap, repeat or reordering; the seed itself is delivered first because the entry path reaches the loop with the seed parameter unchanged). Emit: the index starts at constant 0 and is incremented by exactly 1 on every path back to the loop head (also after a Try-mode failure), the value sent is the first result of Apply(i) of the same iteration, and every path from one application to the next passes exactly once through time.Sleep(frequency) with the stage's own parameter (structural half of 'at most one call per tick'). Cancel/close: the C06 closing rules on both stages. The wall-clock statements (k-th value never before k ticks, one value per tick for a consumer that keeps up) follow on paper from the pacing shape; they are not measured. The closed-world catch implementations give up on cancellation (shared with C06), so a Try function that keeps failing cannot hold Emit/Unfold after cancel.",
 		RuleText:    "one obligation per (stage, rule)",
 		Assumptions: []string{"time.Sleep(d) returns no earlier than d"},
 		TrustedBase: []string{"go/ssa", "path engine P"},
